@@ -83,6 +83,9 @@ func c07Gen(rng *verifsim.RNG, idx int, tier string) *Plan {
 	if rng.Bool(0.5) {
 		p.Stop = []string{"SIGTERM", "SIGHUP"}[rng.Intn(2)]
 	}
+	if rng.Bool(0.25) {
+		secondInterface(rng, p)
+	}
 	return p
 }
 
@@ -92,7 +95,15 @@ func c07Oracle(info *runInfo, res *verifsim.Result) {
 		return
 	}
 	h := analyse(info.ev)
-	spec := &info.plan.Nodes[0].Config.Interfaces[0]
+	for i := range info.plan.Nodes[0].Config.Interfaces {
+		spec := &info.plan.Nodes[0].Config.Interfaces[i]
+		if spec.Advertise {
+			c07Iface(info, res, h, spec)
+		}
+	}
+}
+
+func c07Iface(info *runInfo, res *verifsim.Result, h *history, spec *IfaceSpec) {
 	ifn := spec.Name
 	exact := info.plan.Class == "exact" || info.plan.Class == "flap"
 	stopT, _, _ := stopInstant(h, 0)
@@ -249,8 +260,8 @@ func c07Oracle(info *runInfo, res *verifsim.Result) {
 	check("corerad_advertiser_messages_received_total{"+lab+",message=router advertisement}", ra, "received-ra")
 	check("corerad_advertiser_errors_total{"+lab+",error=transmit}", failed, "errors-transmit")
 
-	res.Nontrivial = answered >= 1
-	if len(h.gens) > 1 {
+	res.Nontrivial = res.Nontrivial || answered >= 1
+	if len(h.gens) > len(info.plan.Nodes[0].Ifaces) {
 		res.Probe("reinitialised")
 	}
 }
